@@ -23,7 +23,8 @@ def mkgen(fams, nq, nt):
     return gen
 
 
-def run(prop, name_re, fams, tier, seed, replay, rule, nq=24, nt=1500, known_patterns=None, files=None):
+def run(prop, name_re, fams, tier, seed, replay, rule, nq=24, nt=1500, known_patterns=None, files=None, extra_sweeps=(), sweep_filter=None):
     files = files or SCHED_FILES
     return hist.run_sched_property(prop, files, [f[:-2] + ".vo" for f in files], name_re, mkgen(fams, nq, nt), tier, seed,
-                                   replay=replay, rule=rule, known_patterns=known_patterns)
+                                   replay=replay, rule=rule, known_patterns=known_patterns, extra_sweeps=extra_sweeps,
+                                   sweep_filter=sweep_filter)
